@@ -7,7 +7,7 @@ ARGS = [0, 1, 2, 3]
 
 DEFAULT_PROFILE = dict(
     nops=(8, 28),
-    w=dict(obj=4, seq=3, exp=14, call=30, rmexp=5, rmobj=2, mvobj=1.5, cpobj=0.3, asobj=0.4, mon=2.5, rmseq=0.7,
+    w=dict(obj=4, seq=3, exp=14, call=30, rmexp=5, rmobj=2, mvobj=1.5, cpobj=0.3, asobj=0.4, mon=2.5, rmseq=0.7, mvseq=0.0,
            tr=0.7, rmtr=0.7, rep=0.5, setp=0.3),
     kinds=dict(M=6, N=1.5, W=2, P=1.5),
     max_obj=4, max_seq=3, max_exp=8,
@@ -308,6 +308,14 @@ class RandomGen:
                 if not c:
                     return None
                 return ('rmseq', rng.choice(c))
+            if kind == 'mvseq':
+                if not m.seqs:
+                    return None
+                src = rng.choice(sorted(m.seqs))
+                others = sorted((set(m.seqs) | m.husks) - {src})
+                if others and rng.random() < 0.5:
+                    return ('asseq', rng.choice(others), src)     # dst = std::move(src); dst may itself be a husk
+                return ('mvseq', fresh(), src)
             if kind == 'tr':
                 if len(m.tracers) >= 3:
                     return None
@@ -356,7 +364,7 @@ class RandomGen:
     def teardown(self, rng, m, emit, after, would_cut_rmseq, would_cut_rmobj, nest_targets):
         pf = self.prof
         guard = 0
-        while (m.exps or m.objs or m.seqs or m.tracers) and guard < 200:
+        while (m.exps or m.objs or m.seqs or m.husks or m.tracers) and guard < 200:
             guard += 1
             c = []
             if m.tracers:
@@ -372,6 +380,8 @@ class RandomGen:
             for s in m.seqs:
                 if pf['allow_cut'] or not would_cut_rmseq(s):
                     c.append(('rmseq', s))
+            for s in m.husks:
+                c.append(('rmseq', s))
             if not c:
                 break
             if not pf['hostile_teardown'] and rng.random() < 0.6:
